@@ -496,9 +496,8 @@ func c12Hostile(w *nodeWorld, fp *fakePeer, kind int, x int64) *pb.RPC {
 		for i := 0; i < n; i++ {
 			ids = append(ids, big(r.rng(0, 40)))
 		}
-		for id := range w.sent {
-			ids = append(ids, id)
-			break
+		if sent := w.sentIDs(); len(sent) > 0 {
+			ids = append(ids, sent[0]) // sorted: ranging over the map would not replay
 		}
 		return &pb.RPC{Control: &pb.ControlMessage{Iwant: []*pb.ControlIWant{{MessageIDs: ids}, {}}}}
 	case 11: // GRAFT unknown / nil topic, repeated
